@@ -127,8 +127,8 @@ func init() {
 	})
 	reg(&Property{
 		ID: "C11",
-		Explanation: "Decides: P7 validator and executor compare a GROUP BY entry with the same Projection fields; P8 the reduce step's error is propagated; L1 the empty pattern does not index row 0 and the other unproven indexes of the grouping path are discharged. Not decided: group integrity on mixed-kind columns, accumulator arithmetic, distinct counting.",
-		Rules: []func(*Ctx){ruleP7, func(c *Ctx) { ruleP8(c, "bql/planner") },
+		Explanation: "Decides: P7 validator and executor compare a GROUP BY entry with the same Projection fields; A1 every accumulator's Reset re-initialises what Accumulate writes and the group reducer resets all accumulators before each group; P8 the reduce step's error is propagated; L1 the empty pattern does not index row 0 and the other unproven indexes of the grouping path are discharged. Not decided: group integrity on mixed-kind columns, accumulator arithmetic, distinct counting.",
+		Rules: []func(*Ctx){ruleP7, ruleA1, func(c *Ctx) { ruleP8(c, "bql/planner") },
 			func(c *Ctx) { ruleL1(c, 20, "./bql/table/...", "./bql/planner/...") }},
 		Level:      "sibling agreement (P7), error use (P8), bounds discharge (L1)",
 		Trusted:    []string{"L1's reviewed entries for bql/table and bql/planner", trustedCore},
@@ -136,16 +136,16 @@ func init() {
 	})
 	reg(&Property{
 		ID: "C12",
-		Explanation: "Decides: P5 stage order pattern -> project/group -> order -> having -> limit, each once and dominating the next; P6 the limit is pushed into the driver only under empty GROUP BY, ORDER BY, HAVING and a single clause; P10 numeric/chronological order is not decided on renderings in the sort comparator; P12 the limit literal is an int64 and non-negative before it is stored and Table.Limit only ever receives it. Not decided: that the sort yields a sorted permutation, DESC and multi-key handling.",
-		Rules:       []func(*Ctx){ruleP5, ruleP6, func(c *Ctx) { ruleP10(c, "bql/table") }, ruleP12},
+		Explanation: "Decides: P5 stage order pattern -> project/group -> order -> having -> limit, each once and dominating the next; P6 the limit is pushed into the driver only under empty GROUP BY, ORDER BY, HAVING and a single clause; P10 numeric/chronological order is not decided on renderings in the sort comparator; P12 the limit literal is an int64 and non-negative before it is stored and Table.Limit only ever receives it; P13 the comparator reads both rows under the first key, passes its direction and recurses on the remaining keys exactly on equality. Not decided: that the sort yields a sorted permutation, DESC and multi-key handling.",
+		Rules:       []func(*Ctx){ruleP5, ruleP6, func(c *Ctx) { ruleP10(c, "bql/table") }, ruleP12, ruleP13},
 		Level:       "dominance of stages (P5), guard facts at the push-down sites (P6), taint from non-order-preserving renderings to string orderings (P10), guard facts on the limit store (P12)",
 		Trusted:     []string{"sort.Sort sorts", trustedCore},
 		NotDecided:  []string{"that the result is a sorted permutation (library)", "DESC and multi-key handling", "first n rows (value-level)", "row dropping inside the clause when the limit is pushed down (PID/extraction filters)"},
 	})
 	reg(&Property{
 		ID: "C13",
-		Explanation: "Decides: P5 HAVING is applied after grouping and before limit; P10 the HAVING evaluators do not order numbers or times by their renderings; L7 the evaluator builder's recursion terminates; L2 evaluator constructors never return (nil, nil). Not decided: truth-functional correctness of the boolean evaluator and of the hand-written expression builder.",
-		Rules:       []func(*Ctx){ruleP5, func(c *Ctx) { ruleP10(c, "bql/semantic") }, func(c *Ctx) { ruleL7(c, "bql/semantic") }, func(c *Ctx) { ruleL2(c, 40, "bql/semantic") }},
+		Explanation: "Decides: P5 HAVING is applied after grouping and before limit; P10 the HAVING evaluators do not order numbers or times by their renderings; E1 each comparisonFor* evaluator tests the cell's kind-specific field before comparing; L7 the evaluator builder's recursion terminates; L2 evaluator constructors never return (nil, nil). Not decided: truth-functional correctness of the boolean evaluator and of the hand-written expression builder.",
+		Rules:       []func(*Ctx){ruleP5, func(c *Ctx) { ruleP10(c, "bql/semantic") }, ruleE1, func(c *Ctx) { ruleL7(c, "bql/semantic") }, func(c *Ctx) { ruleL2(c, 40, "bql/semantic") }},
 		Level:       "stage dominance (P5), rendering taint (P10), structural recursion (L7)",
 		Trusted:     []string{trustedCore},
 		NotDecided:  []string{"truth-functional correctness of booleanNode and of the expression builder (evaluating them is symbolic execution, a different family)", "that comparisons with a constant of another kind never hold"},
